@@ -7,3 +7,4 @@ open RV.C20
 #print axioms commit_idempotent
 #print axioms refused_write_no_effect
 #print axioms pattern_query_shape
+#print axioms reads_exact
